@@ -34,7 +34,7 @@ ASSUMPTIONS = [
 ]
 REQUIRED = {"round_trips": 1500, "rechunked_round_trips": 500, "pool_saves": 300, "pool_loads": 300,
             "metadata_checks": 1500, "rows_compared": 3000, "scheduled_pool_saves": 600, "scheduling_points": 20000,
-            "distinct_pool_schedules": 200}
+            "distinct_pool_schedules": 200, "forked_saver_trips": 100}
 UNIT_TIMEOUT = 1200
 COMPRESSORS = ("blosc", "zstd", "lz4", "bz2")
 
@@ -185,6 +185,36 @@ def verify_stored(d, key, a, chunks, rechunk, executor=None):
     return errs
 
 
+def forked_trip(case, comp):
+    """Forked ('inlined') savers as a ParallelSourcePlugin uses them: a pickled copy of the saver writes each chunk
+    and its per-chunk metadata file (in a pool process), the parent's saver object only closes."""
+    import pickle
+
+    dt, a, chunks = build(case)
+    d = hrun.mktemp("c03f-")
+    out = {"errs": [], "exc": None, "n": len(a)}
+    try:
+        sfe = strax.DataDirectory(d)
+        key = strax.DataKey("0", "dd", {"dd": ("P", "0", {})})
+        md = dict(run_id="0", data_type="dd", data_kind="dd", dtype=np.dtype(dt), compressor=comp,
+                  lineage=key.lineage, chunk_target_size_mb=chunks[0].target_size_mb)
+        try:
+            with common.quiet():
+                parent = sfe.saver(key, md)
+                parent.is_forked = True
+                blob = pickle.dumps(parent)
+                for i, c in enumerate(chunks):
+                    child = pickle.loads(blob)  # every task gets its own copy, like a pool worker
+                    child.save(chunk=c, chunk_i=i)
+                parent.close()
+                out["errs"].extend(verify_stored(d, key, a, chunks, False))
+        except Exception as e:  # noqa: BLE001
+            out["exc"] = e
+        return out
+    finally:
+        hrun.rm(d)
+
+
 def sched_trip(case, comp, rechunk, workers, mode, sseed):
     """save_from through a worker pool whose threads are scheduled adversarially (cooperative scheduler:
     the order in which queued chunk writes start and finish relative to the saver is the chooser's)."""
@@ -273,6 +303,23 @@ def run_unit(u):
                             if len(res["violations"]) < 20:
                                 res["violations"].append({"sig": {"kind": kind, "rechunk": rechunk, "save_pool": "scheduled"},
                                                           "what": f"{kind}: {e}", "case": dict(case, sched_combo=combo)})
+            # forked savers (no rechunking: they are only used for data that is not rechunked on save)
+            for comp in COMPRESSORS[:2]:
+                o = forked_trip(case, comp)
+                res["evaluations"] += 1
+                cnt["forked_saver_trips"] = cnt.get("forked_saver_trips", 0) + 1
+                cnt["metadata_checks"] = cnt.get("metadata_checks", 0) + 1
+                if o["n"]:
+                    res["hashes"].append(common.chash([ch, "forked", comp]))
+                if o["exc"] is not None and len(res["violations"]) < 20:
+                    sig = {"kind": "exception", "rechunk": False, "save_pool": "forked"}
+                    sig.update(common.exc_sig(o["exc"]))
+                    res["violations"].append({"sig": sig, "what": f"forked-saver round trip failed: {o['exc']!r}"[:500],
+                                              "case": dict(case, forked_combo={"compressor": comp})})
+                for kind, e in o["errs"][:2]:
+                    if len(res["violations"]) < 20:
+                        res["violations"].append({"sig": {"kind": kind, "rechunk": False, "save_pool": "forked"},
+                                                  "what": f"{kind}: {e}", "case": dict(case, forked_combo={"compressor": comp})})
             if not res["samples"]:
                 res["samples"].append(dict(case, combos="rechunk x workers 1..3 x seeded random / PCT schedules of the pool"))
         return res
@@ -311,6 +358,17 @@ def run_unit(u):
 
 
 def replay(case):
+    if "forked_combo" in case:
+        base = {k: v for k, v in case.items() if k != "forked_combo"}
+        o = forked_trip(base, case["forked_combo"]["compressor"])
+        out = []
+        if o["exc"] is not None:
+            sig = {"kind": "exception"}
+            sig.update(common.exc_sig(o["exc"]))
+            out.append({"sig": sig, "what": repr(o["exc"]), "case": case})
+        for kind, e in o["errs"]:
+            out.append({"sig": {"kind": kind}, "what": e, "case": case})
+        return out
     if "sched_combo" in case:
         c = case["sched_combo"]
         base = {k: v for k, v in case.items() if k != "sched_combo"}
